@@ -36,6 +36,8 @@ type TierConf struct {
 	MapOrder  int            `json:"maporder,omitempty"`
 	TimeoutS  int            `json:"timeout_s,omitempty"`
 	MaxPaths  int64          `json:"maxpaths,omitempty"`
+	Solver    string         `json:"solver,omitempty"`
+	QueryMs   int            `json:"query_timeout_ms,omitempty"`
 	Skip      bool           `json:"skip,omitempty"`
 }
 
@@ -234,6 +236,7 @@ var forbiddenPkgs = map[string]string{
 // ---- check ----
 
 type harnessOutcome struct {
+	solver string
 	h      Harness
 	res    *interp.Result
 	tc     TierConf
@@ -397,6 +400,12 @@ func mergeTier(q, t TierConf) TierConf {
 	if out.TimeoutS == 0 {
 		out.TimeoutS = q.TimeoutS
 	}
+	if out.Solver == "" {
+		out.Solver = q.Solver
+	}
+	if out.QueryMs == 0 {
+		out.QueryMs = q.QueryMs
+	}
 	return out
 }
 
@@ -436,6 +445,13 @@ func runHarness(ld *loaded, h Harness, tc TierConf, workers int, solver string, 
 	if tier == "thorough" {
 		cfg.TimeoutMs = 60000
 	}
+	if tc.Solver != "" {
+		cfg.Solver = tc.Solver
+	}
+	if tc.QueryMs > 0 {
+		cfg.TimeoutMs = tc.QueryMs
+	}
+	o.solver = cfg.Solver
 	if cfg.Unwind == 0 {
 		cfg.Unwind = 32
 	}
